@@ -1276,7 +1276,11 @@ LEVEL_TEXT = ('Machine-checked proof (Lean 4) by structural induction over the v
               'every level, mapping values recursed whatever their key, a non-mapping value under a str key containing a '
               'generated sanitize key case-insensitively replaced by the mask, other strings passed through the C04 model '
               'of mask_password, everything else the same object), maskdict_keys_preserved, '
-              'maskdict_non_mapping_typeerror (iff). All full strength over the model (distinct keys per mapping is the '
+              'maskdict_non_mapping_typeerror (iff), maskdict_closed_form / maskdict_entries (one result entry per argument '
+              'entry, each a function of its own key and value only), maskdict_hit_replaces, '
+              'maskdict_mapping_always_recursed (a mapping under a sanitize key is recursed into, not replaced), '
+              'maskdict_nonstr_key, maskdict_miss_key, maskdict_result_wf (the result is again a well-formed nested '
+              'mapping). All full strength over the model (distinct keys per mapping is the '
               'representation invariant of a Python dict). Non-mutation is true of the model by construction and is '
               'checked on the code by deep before/after snapshots (identity and content of everything reachable, dict and '
               'non-dict Mapping types) in the correspondence and the search.')
